@@ -6,5 +6,6 @@ CONSTRAINT Bound
 INVARIANT Bijection
 INVARIANT AliasLegal
 INVARIANT AliasInjective
+INVARIANT OneRecordPerSpecies
 INVARIANT ViewsAgree
 CHECK_DEADLOCK FALSE
